@@ -225,6 +225,24 @@ def loop_receiver(xs: list):
     return hs[1].first()
 
 
+# ---- the result is stored INTO an argument (the argument then shares it)
+def result_stored_in_arg(d: dict):
+    r = np.zeros(2)
+    d["k"] = r
+    return r
+
+
+def result_appended_to_arg(xs: list, x: np.ndarray):
+    y = x.copy()
+    xs.append(y)
+    return y[1:]
+
+
+def arg_holds_part_of_other_arg(xs: list, d: dict):
+    xs += [d["a"]]
+    return d
+
+
 # ---- must stay precise
 def fresh_container_of_param(x: np.ndarray):
     out = []
@@ -294,6 +312,9 @@ EXPECT = {
     "temp_receiver_ctor": {"alias": ["x"]},
     "loop_receiver": {"alias": ["xs"]},
     "copies_of_untyped_items": {"alias": ["xs"]},
+    "result_stored_in_arg": {"write": ["d"], "alias": ["d"]},
+    "result_appended_to_arg": {"write": ["xs"], "alias": ["xs"]},
+    "arg_holds_part_of_other_arg": {"write": ["xs"], "alias": ["d", "xs"]},
 }
 EXACT = {
     "fresh_container_of_param": {"write": [], "alias": []},
